@@ -207,6 +207,10 @@ class SingularityCutter(Worker):
         queue = deque()
         visited = dict([(v, False) for v in self.feat_detector.feature_vertices])
         parent = dict([(v, None) for v in self.feat_detector.feature_vertices])
+        for v in self.input_mesh.boundary_vertices:
+            # the border is always part of the cut: all its vertices are roots, so that no feature chord
+            # joining two border vertices closes a cycle with it
+            if v in visited: queue.append((v,None))
         for v in closest_v:
             queue.append((v,None))
         while len(queue)>0:
